@@ -304,6 +304,9 @@ MCREW_RULE = ("operation sequences of 3-12 add / remove / process operations ove
 MCREW_TIMERS_OVERLAY = {"pkg": "cmd/mcrew", "test": "TestVerifTimersDriver", "race": True,
                         "files": {"cmd/mcrew/zz_verif_timers_test.go": "go/overlay/mcrew_timers_test.go"}}
 
+SIO_HOST_OVERLAY = {"pkg": "sio", "test": "TestVerifSioHost", "race": False,
+                    "files": {"sio/zz_verif_host_test.go": "go/overlay/sio_host_test.go"}}
+
 TIMERS_RULE = ("scripted scenarios over three timer ids with delays of 10-120 ms: make / cancel requests from the requester, from inside "
                "the handler of a firing message (re-create the firing id, cancel-and-re-create, re-create-then-cancel), sleeps, reads of "
                "the pending set, a restart from the persisted timers state between creation and due time (sio), and dedicated "
@@ -454,12 +457,14 @@ PROPS = {
         "theorems": [],
         "facts": [],
         "runs": {
-            "quick": [("crew", ["-profile", "crew", "-n", "2000"])],
-            "thorough": [("crew", ["-profile", "crew", "-n", "15000"])],
+            "quick": [("crew", ["-profile", "crew", "-n", "2000"]),
+                      ("siohostgen", ["-n", "400"], {"overlay": SIO_HOST_OVERLAY})],
+            "thorough": [("crew", ["-profile", "crew", "-n", "15000"]),
+                         ("siohostgen", ["-n", "4000"], {"overlay": SIO_HOST_OVERLAY})],
         },
         "analyze": analyze_generic,
         "oracles": ["storeEqLive"],
-        "probes": ["storeEqLive", "rebuildEquiv"],
+        "probes": ["storeEqLive", "rebuildEquiv", "hostStoreEqLive", "hostFileEqLive", "hostRebuildEquiv", "hostResponsive", "noPanic"],
         "rule": CREW_RULE,
     },
     "C16": {
